@@ -58,3 +58,59 @@ def run(run, P):
             run.instance('R-TIMER-REC', '%s: arms the context timer' % name)
         solve(f, Env(), on_event, None, keys, R, key_fn=lambda e: e.ts.get('rec', ()))
     run.require(n >= (2 if run.cfg == 'base' else 0) or run.fixture_mode, 'R-TIMER-REC: fewer than 2 places that arm the context timerfd found')
+
+
+BASE_FIELD = 'sendqueue_basetime'
+QUEUE_FIELD = 'sendqueue'
+ADJUSTERS = ('coap_adjust_basetime',)      # advances the base by a delta AND takes the same delta off the queued deadlines
+
+
+def run_base(run, P):
+    """R-TIMER-REC (queue base): the deadlines of queued nodes are stored relative to X->sendqueue_basetime.  Setting the base (`= now`)
+    while nodes are queued moves every pending deadline by the time that has passed since the old base: retransmissions and the give-up
+    come late, and the reported wait is too long.  So every plain assignment to the base field happens on a path that knows the queue
+    of the same object empty (`X->sendqueue == NULL` taken); the only other writer is the adjuster, which adds a delta to the base and
+    takes it off the queued nodes in the same function."""
+    run.rule('R-TIMER-REC')
+    n = 0
+    for f in sorted(P.lib_funcs(), key=lambda f: f['name']):
+        sites = []
+        for b, ev in P.events(f):
+            t = ev['e']
+            if t.get('k') == 'asg' and ev.get('top', True):
+                l = strip(t['l'])
+                if isinstance(l, dict) and l.get('k') == 'mem' and l.get('f') == BASE_FIELD and ap(l.get('b')):
+                    sites.append((ev, ap(l['b']) + '->' + QUEUE_FIELD, t.get('op')))
+        if not sites:
+            continue
+        name = f['name']
+        qpaths = set(s[1] for s in sites)
+
+        def is_rule_event(ev):
+            return any(ev is s[0] for s in sites)
+        keys, R = relevance(f, is_rule_event, qpaths)
+        R = set(R) | qpaths
+        rep = set()
+
+        def on_event(ev, env, ctx):
+            for sev, q, op in sites:
+                if ev is sev:
+                    if op != '=':
+                        ok = name in ADJUSTERS
+                        why = 'compound update outside the adjuster'
+                    else:
+                        ok = env.nullf(q) == 'Z'
+                        why = 'the queue is not known empty'
+                    run.oblige('R-TIMER-REC', ok, '%s:base-set-only-for-empty-queue' % name)
+                    if not ok and ev['loc'] not in rep:
+                        rep.add(ev['loc'])
+                        run.violation('R-TIMER-REC', name, ev['loc'], 'queue-rebased-while-non-empty',
+                                      '%s is written (%s) on a path on which %s: the deadlines of the nodes already queued are relative to the old base, so all of them '
+                                      '(and the one being added) move later by the time that passed since -- retransmissions and the final give-up come late'
+                                      % (BASE_FIELD, short(ev['e'])[:50], why), ctx.path())
+            return None
+        for sev, q, op in sites:
+            n += 1
+            run.instance('R-TIMER-REC', '%s: %s only with the queue known empty (or inside the adjuster)' % (name, short(sev['e'])[:50]))
+        solve(f, Env(), on_event, None, keys, R, key_fn=lambda e: tuple(e.nullf(q) for q in sorted(qpaths)))
+    run.require(n >= 3 or run.fixture_mode or run.cfg != 'base', 'R-TIMER-REC(queue base): fewer than 3 writers of %s found' % BASE_FIELD)
